@@ -152,10 +152,10 @@ fn compute_block_facts<'ast, 'arena>(
             for &local in &op.reads {
                 note_use(&mut uses, &defs, local, local_start);
             }
-            for &local in &op.writes {
-                note_def(&mut defs, local, local_start);
-            }
 
+            // Calls run while the statement's expression is evaluated, that is before the
+            // statement's own store: a callee's capture read of the local this statement
+            // assigns is an upward-exposed use (same order as `apply_op_transfer`).
             for &callee in &op.direct_callees {
                 let summary = &summaries[callee.0 as usize];
                 if !summary.available {
@@ -167,6 +167,10 @@ fn compute_block_facts<'ast, 'arena>(
                         note_use(&mut uses, &defs, local, local_start);
                     }
                 }
+            }
+
+            for &local in &op.writes {
+                note_def(&mut defs, local, local_start);
             }
         }
 
